@@ -97,6 +97,40 @@ func (g *vFollowGate) release(id string, d time.Duration) bool {
 	}
 }
 
+// ---- health-tick observations (verifTrace "replicator.tick") ------------------
+
+type vTick struct {
+	leader, replica  string
+	outOfSync, inISR bool
+}
+
+var (
+	vTickMu sync.Mutex
+	vTicks  []vTick
+)
+
+func vTraceHook(ev string, fields ...interface{}) {
+	if ev != "replicator.tick" || len(fields) != 4 {
+		return
+	}
+	vTickMu.Lock()
+	vTicks = append(vTicks, vTick{fields[0].(string), fields[1].(string), fields[2].(bool), fields[3].(bool)})
+	vTickMu.Unlock()
+}
+
+func vTickCount(leader, replica string) (int, vTick) {
+	vTickMu.Lock()
+	defer vTickMu.Unlock()
+	n, last := 0, vTick{}
+	for _, t := range vTicks {
+		if t.leader == leader && t.replica == replica {
+			n++
+			last = t
+		}
+	}
+	return n, last
+}
+
 // ---- kit --------------------------------------------------------------------
 
 type vAck struct {
@@ -138,6 +172,7 @@ type vKit struct {
 	fetchMax int
 	batch    int
 	gapMs    int
+	lagMs    int
 	pending  map[string][]vRaftOp // ops committed but not yet applied by a lagging follower
 	msgSize  int64
 }
@@ -240,6 +275,10 @@ func (k *vKit) newServer(id string) *Server {
 	config.Telemetry.Enabled = false
 	config.Clustering.MinISR = k.minISR
 	config.Clustering.ReplicaMaxLagTime = 10 * time.Hour
+	if k.lagMs > 0 {
+		// timed scenarios: the leader's own health check runs with a real, short lag window
+		config.Clustering.ReplicaMaxLagTime = time.Duration(k.lagMs) * time.Millisecond
+	}
 	config.Clustering.ReplicaMaxLeaderTimeout = 10 * time.Hour
 	config.Clustering.ReplicaFetchTimeout = 250 * time.Millisecond
 	config.Clustering.ReplicaMaxIdleWait = time.Millisecond
@@ -523,6 +562,10 @@ func (k *vKit) isrOp(f string, shrink bool) string {
 }
 
 func (k *vKit) elect(n string, reach bool, lag map[string]bool) string {
+	if !k.isr[n] {
+		// the controller only ever elects a member of the in-sync set
+		return "skipped:not-in-isr"
+	}
 	old := k.leader
 	op := k.commit(&proto.RaftLog{Op: proto.Op_CHANGE_LEADER, ChangeLeaderOp: &proto.ChangeLeaderOp{
 		Stream: k.stream, Partition: 0, Leader: n}})
@@ -871,6 +914,27 @@ func (k *vKit) step(id int, step map[string]interface{}) vRepEvent {
 		}
 		args["n"], args["reach"], args["lag"] = vStr(step, "n"), vBool(step, "reach"), lagList
 		res = k.elect(vStr(step, "n"), vBool(step, "reach"), lag)
+	case "AwaitTick":
+		// wait for the next health check of follower f by the current leader and
+		// record the decision it took; the requests it makes to the controller are
+		// committed by the harness (playing the controller) as separate steps
+		f := vStr(step, "f")
+		args["f"] = f
+		leader := k.leader
+		n0, _ := vTickCount(leader, f)
+		deadline := time.Now().Add(time.Duration(4*k.lagMs+1000) * time.Millisecond)
+		var last vTick
+		n := n0
+		for n == n0 && time.Now().Before(deadline) {
+			time.Sleep(2 * time.Millisecond)
+			n, last = vTickCount(leader, f)
+		}
+		if n == n0 {
+			res = "no-tick"
+			args["outOfSync"], args["inISR"] = false, false
+		} else {
+			args["outOfSync"], args["inISR"] = last.outOfSync, last.inISR
+		}
 	case "StaleFetch":
 		// the follower still runs its old-epoch loop: one request goes out; the
 		// new leader must ignore it, the request times out, the loop returns
@@ -908,7 +972,8 @@ func TestVerifReplication(t *testing.T) {
 	defer ns.Shutdown()
 	gate := newVFollowGate()
 	VerifGateStopHook = gate.hook
-	defer func() { VerifGateStopHook = nil }()
+	VerifTraceHook = vTraceHook
+	defer func() { VerifGateStopHook = nil; VerifTraceHook = nil }()
 	for _, b := range sf.Behaviours {
 		ids := vKitIDs
 		if vIntDef(b.Cfg, "rf", 3) == 1 {
@@ -916,11 +981,23 @@ func TestVerifReplication(t *testing.T) {
 		}
 		k := newVKit(t, ns, gate, b.ID, int(vIntDef(b.Cfg, "minISR", 2)), int(vIntDef(b.Cfg, "fetchMax", 2)), ids, int(vIntDef(b.Cfg, "batch", 1)))
 		k.gapMs = int(vIntDef(b.Cfg, "gapMs", 0))
+		k.lagMs = int(vIntDef(b.Cfg, "lagMs", 0))
 		k.create()
 		tw.Emit(vRepEvent{T: b.ID, A: "Open", Args: map[string]interface{}{}, St: k.state(),
 			Obs: map[string]interface{}{"acks": []vAck{}, "nacks": []int64{}}})
 		for _, step := range b.Steps {
-			tw.Emit(k.step(b.ID, step))
+			ev := k.step(b.ID, step)
+			tw.Emit(ev)
+			if ev.A == "AwaitTick" && ev.Res == "" {
+				// act on the leader's request as the controller would
+				f := ev.Args["f"].(string)
+				oos, in := ev.Args["outOfSync"].(bool), ev.Args["inISR"].(bool)
+				if oos && in && k.isr[f] {
+					tw.Emit(k.step(b.ID, map[string]interface{}{"a": "Shrink", "f": f}))
+				} else if !oos && !in && !k.isr[f] {
+					tw.Emit(k.step(b.ID, map[string]interface{}{"a": "Expand", "f": f}))
+				}
+			}
 		}
 		k.close()
 	}
